@@ -33,7 +33,8 @@ def run(ctx):
     n = 4 if q else 40
     blocks = 150 if q else 400
     lines, sums = [], []
-    for extra in (["-maxvals", "3"], ["-maxvals", "2", "-extranodes", "1"], ["-maxvals", "1"]):
+    for extra in (["-maxvals", "3"], ["-maxvals", "2", "-extranodes", "1"], ["-maxvals", "1"],
+                  ["-maxvals", "3", "-maxperentity", "2", "-extranodes", "2"]):
         ls, ss = cc.run_scenarios(ctx, [ctx.seed * 1000 + 100 * len(sums) + i for i in range(n)], blocks, extra=extra)
         lines += ls
         sums += ss
